@@ -1,9 +1,38 @@
-//! C10 — stub, to be written.
+//! C10 — probe stub (temporary)
 use corrlib::*;
+use std::io::{BufReader, Cursor};
+
+pub fn show_outcome(r: &Result<Result<Vec<(String, grcov::CovResult)>, grcov::ParserError>, String>) -> String {
+    match r {
+        Ok(Ok(rs)) => format!("ok {}", show_results(rs)).trim_end().to_string(),
+        Ok(Err(e)) => format!(
+            "err {}",
+            match e {
+                grcov::ParserError::Io(_) => "Io",
+                grcov::ParserError::Parse(_) => "Parse",
+                grcov::ParserError::InvalidRecord(_) => "InvalidRecord",
+                grcov::ParserError::InvalidData(_) => "InvalidData",
+            }
+        ),
+        Err(_) => "panic".to_string(),
+    }
+}
+
+pub fn run_impl(bytes: &[u8]) -> String {
+    let b = bytes.to_vec();
+    show_outcome(&guarded(move || grcov::parse_jacoco_xml_report(BufReader::new(Cursor::new(b)))))
+}
 
 pub fn run(_rep: &mut Report) {}
 pub fn replay(_rep: &mut Report, _case: &serde_json::Value) {}
 
 fn main() {
+    let args: Vec<String> = std::env::args().collect();
+    if args.len() >= 3 && args[1] == "--child-parse" {
+        install_panic_hook();
+        let bytes = std::fs::read(&args[2]).unwrap();
+        println!("{}", run_impl(&bytes));
+        return;
+    }
     corrlib::run_main("C10", run, replay);
 }
